@@ -118,6 +118,9 @@ class CHECK(Check):
                             'insert into %s (a) values (1)', 'drop table %s', 'select f(%s) from t'):
                     out.append((d, 'ID', '`kw`', ctx.replace('%s', '`%s`' % w)))
                     out.append((d, 'ID', 'kw', ctx.replace('%s', w)))
+            for sp in lexemes.keyword_like_ids(m):
+                for ctx in ('select %s from t', 'select t.%s from t', 'select a from %s', 'select a as %s from t'):
+                    out.append((d, 'ID', 'kw$', ctx.replace('%s', sp)))
             for text in f.kw_family(['abc'] + lexemes.MAGIC_IDS):
                 out.append((d, 'kw', None, text))
             if d == 'mindsdb':
